@@ -1016,6 +1016,13 @@ func (c *compiler) evalForExpression(node *ast.ForExpression) (interface{}, erro
 
 	riter := reflect.ValueOf(iter)
 	if riter.Kind() == reflect.Ptr {
+		if riter.IsNil() {
+			switch riter.Type().Elem().Kind() {
+			case reflect.Slice, reflect.Array, reflect.Map:
+				// like a nil slice or map: there is nothing to loop over
+				return nil, nil
+			}
+		}
 		riter = riter.Elem()
 	}
 
